@@ -323,7 +323,7 @@ pub fn property(tier: Tier) -> Property {
             panic_is_violation: false,
             render,
             rule: "a reachable e-graph (mixed history incl. rewriting) followed by probe terms: literal re-insertion, alpha-variant, free renaming, subterm replaced by a union-equal term, subterm, arbitrary term; lookup <=> add creates nothing, eq(lookup, add), lookup changes nothing, renaming equivariance; non-trivial = a non-literal variant of a represented term was probed; distinct by rendered case",
-            case_timeout_s: tier.pick(120, 600),
+            case_timeout_s: tier.pick(30, 120),
             exhaustive: false,
         }));
     }
@@ -334,7 +334,7 @@ pub fn property(tier: Tier) -> Property {
         panic_is_violation: false,
         render: |c: &SlotCase| format!("{} probe={}", c.hist.render(), c.probe.render(&c.hist.naming)),
         rule: "add/union history, then a probe term built around a renamed subterm; the returned invocation must omit every free name the ground closure shows redundant; non-trivial = the probe has a redundant name",
-        case_timeout_s: tier.pick(120, 600),
+        case_timeout_s: tier.pick(30, 120),
         exhaustive: false,
     }));
     Property { id: "C09", scale: tier.pick(5, 2), stages, assumptions: vec!["'represented' for variants is decided by construction (alpha-variant, renaming, replacement of a subterm by a term it was united with)".into()] }
